@@ -7,6 +7,7 @@ pub mod c03;
 pub mod c04;
 pub mod c05;
 pub mod c06;
+pub mod c07;
 pub mod c08;
 pub mod c09;
 pub mod c10;
@@ -14,6 +15,10 @@ pub mod c10core;
 pub mod c11;
 pub mod c12;
 pub mod c13;
+pub mod c14;
+pub mod c15;
+pub mod c16;
+pub mod c17;
 pub mod c18;
 pub mod gwgen;
 
@@ -35,12 +40,17 @@ pub fn run(id: &str, tier: Tier, seed: u64) -> i32 {
         "C04" => c04::C04,
         "C05" => c05::C05,
         "C06" => c06::C06,
+        "C07" => c07::C07,
         "C08" => c08::C08,
         "C09" => c09::C09,
         "C10" => c10::C10,
         "C11" => c11::C11,
         "C12" => c12::C12,
         "C13" => c13::C13,
+        "C14" => c14::C14,
+        "C15" => c15::C15,
+        "C16" => c16::C16,
+        "C17" => c17::C17,
         "C18" => c18::C18,
     )
 }
@@ -54,12 +64,17 @@ pub fn replay(id: &str, path: &Path) -> i32 {
         "C04" => c04::C04,
         "C05" => c05::C05,
         "C06" => c06::C06,
+        "C07" => c07::C07,
         "C08" => c08::C08,
         "C09" => c09::C09,
         "C10" => c10::C10,
         "C11" => c11::C11,
         "C12" => c12::C12,
         "C13" => c13::C13,
+        "C14" => c14::C14,
+        "C15" => c15::C15,
+        "C16" => c16::C16,
+        "C17" => c17::C17,
         "C18" => c18::C18,
     )
 }
